@@ -203,6 +203,9 @@ func genLength(r *gen.Rand) int {
 	case 3, 4:
 		return r.Range(4, 10)
 	case 5:
+		if r.Chance(0.04) {
+			return r.PickInt([]int{32773, 50001, 65539}) // long alignments, lengths that are no multiple of 8 / 16
+		}
 		return r.PickInt([]int{1999, 2000})
 	case 6, 7, 8, 9, 10, 11:
 		return r.Range(11, 100)
@@ -312,6 +315,11 @@ func runDirichlet(c *mon.Case) {
 	}
 	alpha, class := genAlpha(r, n)
 	factor, fclass := genFactor(r, n)
+	if n <= 50 && (class == "all<1" || class == "all0.01") && r.Chance(0.25) {
+		// a huge total with small shapes (the raw gamma draws are tiny: total / their sum is far beyond the largest
+		// float, total x proportion is not)
+		factor, fclass = r.PickF([]float64{1e300, 1e290}), "factor:huge"
+	}
 	seed := genSeed(r)
 	c.Input(map[string]interface{}{"factor": factor, "alpha": alpha, "seed": seed, "class": class})
 	ctx := fmt.Sprintf("factor=%v seed=%d alpha(%s)=%s", factor, seed, class, short(alpha))
